@@ -2,6 +2,7 @@
 import json, os, random
 from datetime import datetime
 from tools import vlib, t3
+from tools import ks
 from tools.vlib import hx
 
 MODULE = "PropC10"
@@ -265,6 +266,7 @@ def run(rep, tier, seed):
     results += t3.run_many(crash_case, ccases)
     results += t3.run_many(memory_tags_case, [(seed, i) for i in range(n // 8)])
     results += t3.run_many(escape_case, [(seed, i) for i in range(n // 4)])
+    results += t3.run_many(ks.ks_case, [(seed, i, ("audit",)) for i in range(n // 6)])
     kf = vlib.known_findings("C10")
     for r in results:
         for kind, path, up, k in r["known"]:
@@ -276,6 +278,7 @@ def run(rep, tier, seed):
     rep.cov["evaluations"] = sum(r["records"] for r in results)
     rep.cov["distinct_nontrivial"] = len({r["spec"] for r in results if r["ntasks"] >= 2})
     rep.cov["rule"] = "random workflows (multi-input, multi-output, parameters, fan-out), plus a tagging component on a linear path with a {t:..} placeholder downstream, plus sub-streams (members as upstream records), plus tagged items entering a sub-stream; every <path>.audit.json of the run is parsed: valid JSON, process, non-empty command, start <= finish, duration >= 0, OutFiles contains the file, tags of every upstream record present; and the record without IDs and times must equal, recursively down to the source files, the lineage tree computed by the Coq reference evaluator (command text via the Format model); evaluations = audit records compared; non-trivial = at least two executed tasks"
+    rep.cov["rule"] += "; plus kitchen-sink workflows (tools/ks.py: random workflows decorated with tagging components, sub-streams, Concatenator / FileSplitter, streamed pairs, component parameter feeders, Go-function and multi-core processes, RunTo) judged by the model-free audit oracle"
     rep.cov["samples"] = [results[1]["spec"]]
     rep.notes["input_distribution"] = {"runs": len(results), "records": sum(r["records"] for r in results), "by_shape": {str(s): sum(1 for r in results if r["shape"] == s) for s in range(5)}, "crash_points": sum(1 for r in results if r["shape"] == 9)}
     rep.assump += ["H-ids: record IDs are pairwise distinct", "a tagging component is the only consumer of the out-port it reads (a sibling consumer of the same IP may or may not see the tag, by timing)"]
